@@ -44,6 +44,8 @@ func (c *c13Case) salt() []byte {
 	return b
 }
 
+const c13MaxReports = 4
+
 var errC13Empty = errors.New("c13: inner socket has no packet (would block)")
 
 // c13NoBlock is the receiving inner socket: an empty inbox is an error instead of blocking, so a
@@ -401,7 +403,15 @@ func c13Enumerate(sh *evidence.Shard) {
 	env := sh.Env()
 	var item int64
 	mine := func() bool { item++; return env.Mine(item) }
+	// at most c13MaxReports violations (the first = simplest failing cases) are written out per part
+	// and shard; later failing cases are only counted (a broken keystream fails every case)
+	reported := map[string]int{}
 	report := func(p *evidence.Part, c *c13Case, clause string) {
+		if reported[p.Name] >= c13MaxReports {
+			p.Count("failing_cases_not_written_out", 1)
+			return
+		}
+		reported[p.Name]++
 		cc := *c
 		sh.Violate(p.Name, c13Sig(c, clause), clause, &cc)
 	}
